@@ -114,7 +114,9 @@ func (f *Formatter) formatInfixExpression(expr *ast.InfixExpression) *ChunkBuffe
 
 	operator := expr.Operator
 	if expr.Operator == "+" { // concatenation
-		if !f.conf.ExplicitStringConcat {
+		// The operator could be omitted only when the right expression starts with
+		// a token that the implicit concatenation accepts
+		if !f.conf.ExplicitStringConcat && isImplicitConcatenatable(expr.Right) {
 			operator = ""
 		}
 	}
@@ -126,6 +128,20 @@ func (f *Formatter) formatInfixExpression(expr *ast.InfixExpression) *ChunkBuffe
 	buf.Append(f.formatExpression(expr.Right))
 
 	return buf
+}
+
+// isImplicitConcatenatable() returns true if the expression could follow the left expression
+// without "+" operator, i.e. starts with string, identifier or if expression token.
+func isImplicitConcatenatable(expr ast.Expression) bool {
+	switch t := expr.(type) {
+	case *ast.String, *ast.Ident, *ast.IfExpression, *ast.FunctionCallExpression:
+		return len(expr.GetMeta().Leading) == 0
+	case *ast.InfixExpression:
+		return isImplicitConcatenatable(t.Left)
+	case *ast.PostfixExpression:
+		return isImplicitConcatenatable(t.Left)
+	}
+	return false
 }
 
 // Format prefix expression like `if(req.http.Foo, "foo", "bar")`
